@@ -61,7 +61,28 @@ def gen_history(rng, nsteps=None, two_apps=None, simple=None, cfg=None,
             evos = []
             if a == 'va' or rng.random() < 0.5:
                 n = rng.choice([1, 1, 2, 3, 4])
-                muts, st, rows = g.gen_sequence(st, a, n, rows)
+                muts = None
+                if not simple and rng.random() < 0.15:
+                    # a step that changes Python names only and lowers to no
+                    # SQL at all: RenameField keeping the column
+                    mu = g.mut_RenameField(st, a, st['apps'][a]['models'],
+                                           rows)
+                    if mu and not mu.get('db_table'):
+                        mm = spec.find_model(st['apps'][a]['models'],
+                                             mu['model'])
+                        ff = spec.find_field(mm, mu['old'])
+                        if ff['kind'] != 'ManyToMany':
+                            mu['db_column'] = spec.column_name(ff)
+                            try:
+                                new = spec.apply_mutation(st, a, mu)
+                                spec.validate_state(new)
+                                rows = rowmodel.apply(rows, st, new, a, mu)
+                                st = new
+                                muts = [mu]
+                            except spec.SpecError:
+                                muts = None
+                if muts is None:
+                    muts, st, rows = g.gen_sequence(st, a, n, rows)
                 if muts:
                     label = ('e%d' % (s + 1)) if shared_labels else \
                         ('%s_e%d' % (a, s + 1))
